@@ -391,6 +391,23 @@ class Engine:
                             names.add(a.id)
         return names
 
+    def _mutated_in_place(self, stmts):
+        names = set()
+        for n in ast.walk(ast.Module(body=list(stmts), type_ignores=[])):
+            if isinstance(n, (ast.Subscript, ast.Attribute)) and isinstance(n.ctx, (ast.Store, ast.Del)):
+                b = n
+                while isinstance(b, (ast.Subscript, ast.Attribute)):
+                    b = b.value
+                if isinstance(b, ast.Name):
+                    names.add(b.id)
+            elif isinstance(n, ast.Call) and isinstance(n.func, ast.Attribute) and n.func.attr in _MUTATORS:
+                b = n.func.value
+                while isinstance(b, (ast.Subscript, ast.Attribute)):
+                    b = b.value
+                if isinstance(b, ast.Name):
+                    names.add(b.id)
+        return names
+
     def _havoc(self, st, names, lc):
         for nm in sorted(names):
             if nm in st.env:
@@ -483,8 +500,9 @@ class Engine:
             self.oblige(st, f"{tag}.entry.{nm}", g, s.lineno, kind="inv")
         outs = []
         mod = self._assigned_names(s.body) | _target_names(s.target)
-        # the iterated collection must not be mutated by the body
-        if isinstance(s.iter, ast.Name) and s.iter.id in self._assigned_names(s.body):
+        # the iterated collection must not be mutated IN PLACE by the body (rebinding the name is harmless:
+        # the loop keeps iterating the original object, which is what `coll` denotes)
+        if isinstance(s.iter, ast.Name) and s.iter.id in self._mutated_in_place(s.body):
             self.oblige(st, f"{tag}.iterated_collection_not_mutated", False, s.lineno, kind="inv")
         it = st.clone()
         self._havoc(it, mod, lc)
@@ -964,6 +982,9 @@ class Engine:
 
     def contains(self, coll, x, st, node):
         ty = coll.ty
+        r = self.reg.contains(self, st, coll, x, node)
+        if r is not None:
+            return r
         if ty == TSpace:
             return indom(coll.t, x.t)
         if isinstance(ty, TSet):
